@@ -10,7 +10,10 @@ FirstBad(s, P(_)) == LET bad == {j \in 1..Len(s) : ~P(s[j])} IN IF bad = {} THEN
 Clauses(r) ==
    LET d == TLCEval(Decode(r.b, 32))
        whole == d.ok /\ d.len = Len(r.b)                       \* b is exactly one instruction per the reference
-       F(c, w, j) == [clause |-> c, where |-> w, at |-> j]
+       \* what the reference decoder says about b (root-cause tag of crash classes: a crash on a valid instruction is
+       \* another class than the same crash on bytes that are not an instruction or carry superfluous prefixes)
+       spec == IF ~whole THEN "not_one_instruction" ELSE IF Meaningful(d.pfx, d) THEN "valid" ELSE "superfluous_prefix"
+       F(c, w, j) == [clause |-> c, where |-> w, at |-> j, spec |-> spec]
        tb == FirstBad(r.truncs, Allowed)  jb == FirstBad(r.junk, Allowed)
        ob == FirstBad(r.offs, LAMBDA x : Allowed(x.out) /\ Allowed(x.suf))
        agree == whole /\ r.base.k = "instr" /\ r.base.len = d.len
